@@ -1,7 +1,7 @@
 (* C10Check.v — executable check for C10: case type, observation, canonical numbering of
    object identities, and the property oracle (evaluated on the implementation's observation).
 
-   A snapshot of one side is observed as  [structure; labels; rank lists]:
+   A snapshot of one side is observed as  [structure; labels; rank lists; owners]:
      structure  = the tree without identities (coordinates, leaf values)
      labels     = the identity numbers of every object met, in visiting order (fiber, its
                   attrs object, the attrs' default object, its owner rank, then the elements;
@@ -42,9 +42,22 @@ Fixpoint enc_et (t : et) : V :=
   | EN es => VL (map (fun ct => VL [enc_coord (fst ct); enc_et (snd ct)]) es)
   end.
 Definition enc_labs (r : N -> N) (l : list N) : V := VL (map (fun x => VZ (Z.of_N (r x))) l).
+(* the owner every fiber reports, DFS order: -1 = none, otherwise the position of the owner in
+   the snapshot's own rank list (= number of ranks when it is some other rank object) *)
+Fixpoint owners (t : lt) : list (option N) :=
+  match t with
+  | LB _ _ => []
+  | LF _ a es => a_own a :: flat_map (fun ct => owners (snd ct)) es
+  end.
+Definition owner_code (rs : list rk) (o : option N) : V :=
+  match o with
+  | None => VZ (-1)%Z
+  | Some x => VZ (Z.of_N (index_of x (map r_lab rs)))
+  end.
 Definition enc_snap (r : N -> N) (s : snapshot) : V :=
   VL [enc_et (erase (s_tree s)); enc_labs r (snap_labels s);
-      VL (map (fun x => enc_labs r (r_fibers x)) (s_ranks s))].
+      VL (map (fun x => enc_labs r (r_fibers x)) (s_ranks s));
+      VL (map (owner_code (s_ranks s)) (owners (s_tree s)))].
 
 (* ---- the model's observation *)
 Fixpoint load_all (n : nat) (ts : list pt) (nx : N) : list snapshot * N :=
@@ -108,10 +121,10 @@ Fixpoint zs_of (l : list V) : option (list Z) :=
   end.
 Definition snap_parts (s : V) : option (V * list Z * V) :=
   match s with
-  | VL [st; VL lb; rl] => match zs_of lb with Some l => Some (st, l, rl) | None => None end
+  | VL [st; VL lb; rl; ow] => match zs_of lb with Some l => Some (st, l, VL [rl; ow]) | None => None end
   | _ => None
   end.
-(* same structure and same rank lists *)
+(* same structure, same rank lists, same owner of every fiber *)
 Definition same_struct (a b : V) : bool :=
   match snap_parts a, snap_parts b with
   | Some (sa, _, ra), Some (sb, _, rb) => V_eqb sa sb && V_eqb ra rb
